@@ -331,7 +331,8 @@ def renderTable (maxBitLen : Nat) (tags : List Nat) : String :=
   s!"T[{",".intercalate ((tableTags maxBitLen tags).map (fun t => s!"{toHex t}:{2 ^ t}"))}]"
 
 def St.render (s : St F) : String :=
-  s!"{renderRegions toNat s.regions} {renderCopies s.copies} {renderTable s.maxBitLen s.tags}"
+  " ".intercalate (([renderRegions toNat s.regions, renderCopies s.copies,
+    renderTable s.maxBitLen s.tags]).filter (· ≠ ""))
 
 end render
 
